@@ -220,7 +220,7 @@ def check_case(out, inst, model_lines, queries):
         out.oracle_violation(dict(facts, call='aggregate_time_series', symptom='aggregate'), dict(case, index=q[1], sel=q[2]),
                              f'aggregate over indices {q[2]} of geo index {q[1]} is not the sum of the rows of {[q[1][i] for i in q[2]]}')
         return
-      if not math.isclose(shr, wshr, rel_tol=1e-12, abs_tol=1e-15):
+      if tot and not math.isclose(shr, wshr, rel_tol=1e-12, abs_tol=1e-15):      # shares are undefined when the means sum to zero (§13.8)
         out.oracle_violation(dict(facts, call='aggregate_geo_share', symptom='aggregate'), dict(case, index=q[1], sel=q[2]),
                              f'aggregate share {shr} over indices {q[2]} of {q[1]} != {wshr}')
         return
